@@ -97,3 +97,37 @@ Arguments svd_of_block {F} dsvd pick tol M q0 q1.
 Arguments csqrt {F} ksqrt z.
 Arguments site_dist2 {F} X Y. Arguments site_nrm2 {F} X. Arguments site_is_zero {F} X.
 Arguments diagmx {F} w.
+
+(* ------------------------------------------------------------------ *)
+(* comparison helpers for the correspondence check (form R)             *)
+(* ------------------------------------------------------------------ *)
+Section CheckSplit.
+  Variable F : ofield.
+  Notation CF := (Cx F).
+  Notation mx := (mx CF).
+  Notation site := (site CF).
+  (* |a - b| <= eps, componentwise; the implementation's factors went through one float multiplication by sigma *)
+  Definition f_close (eps a b : F) : bool := fleb F (fsub F a b) eps && fleb F (fsub F b a) eps.
+  Definition c_close (eps : F) (x y : CF) : bool := f_close eps (fst x) (fst y) && f_close eps (snd x) (snd y).
+  Definition mx_close (eps : F) (A B : mx) : bool :=
+    wfb B && Nat.eqb (nr A) (nr B) && Nat.eqb (nc A) (nc B) &&
+    forallb (fun i => forallb (fun j => c_close eps (get A i j) (get B i j)) (seq 0 (nc A))) (seq 0 (nr A)).
+  Definition site_close (eps : F) (X Y : site) : bool :=
+    Nat.eqb (length X) (length Y) && forallb (fun p => mx_close eps (fst p) (snd p)) (combine X Y).
+  (* recorded numpy.sqrt answers, looked up by exact argument *)
+  Fixpoint f_lookup (tbl : list (F * F)) (x : F) : F :=
+    match tbl with [] => f0 F | (k, v) :: t => if feqb F k x then v else f_lookup t x end.
+  (* the composed model, run with the recorded oracle answers, returns the implementation's (A0, A1, qbond):
+     qbond and all shapes exactly, entries within eps *)
+  Definition check_split_full (tbl : list (mx * (mx * list F * mx))) (sort_idx : list nat) (sqtbl : list (F * F))
+             (A : site) (qd0 qd1 qD0 qD2 : list Z) (distr : nat) (tol eps : F)
+             (expect : option (site * site * list Z)) : bool :=
+    match split_mps_tensor_full (svd_oracle tbl) (fun _ => sort_idx) (f_lookup sqtbl) A qd0 qd1 [qD0; qD2] distr tol, expect with
+    | Some (B0, B1, qb), Some (A0, A1, qb') => site_close eps B0 A0 && site_close eps B1 A1 && zlist_eqb qb qb'
+    | None, None => true
+    | _, _ => false
+    end.
+End CheckSplit.
+Arguments site_close {F} eps X Y. Arguments mx_close {F} eps A B.
+Arguments f_lookup {F} tbl x.
+Arguments check_split_full {F} tbl sort_idx sqtbl A qd0 qd1 qD0 qD2 distr tol eps expect.
